@@ -350,7 +350,16 @@ class Documentable:
     def resolveName(self, name: str) -> Optional['Documentable']:
         """Return the object named by "name" (using Python's lookup rules) in
         this context, if any is known to pydoctor."""
-        return self.system.objForFullName(self.expandName(name))
+        full_name = self.expandName(name)
+        obj = self.system.objForFullName(full_name)
+        if obj is None:
+            # The name might designate the original location of an object
+            # that has been moved by a re-export since it was imported.
+            try:
+                obj = self.system.find_object(full_name)
+            except LookupError:
+                obj = None
+        return obj
 
     @property
     def privacyClass(self) -> PrivacyClass:
